@@ -37,7 +37,6 @@ func vfC02Mono(s *Serf, all []*memberState, pre []vfSnap, pfx string) {
 //
 //vf:unwind 8
 //vf:bound state 2 members of symbolic presence/status/status time + buffered intent for 1 unknown node; intent time: all 64-bit values
-//vf:nonative
 func VfC02_StepIntent() {
 	s := vfNewSerf("self", 1)
 	all := vfMembers(s, 2)
@@ -106,7 +105,6 @@ func VfC02_StepIntent() {
 //
 //vf:unwind 8
 //vf:bound state as VfC02_StepIntent
-//vf:nonative
 func VfC02_StepNotify() {
 	s := vfNewSerf("self", 1)
 	all := vfMembers(s, 2)
@@ -152,7 +150,6 @@ func VfC02_StepNotify() {
 //
 //vf:unwind 8
 //vf:bound inputs 2 intents of symbolic kind and 64-bit time for one unknown node
-//vf:nonative
 func VfC02_Buffer() {
 	s := vfNewSerf("self", 1)
 	vfMembers(s, 1)
@@ -284,7 +281,6 @@ func vfC02Sync(from, to *Serf) {
 //vf:bound scenario 2 replicas, 1 subject; quick: join, optional leave, optional down, optional state sync before the down; thorough: additionally re-join after down; each intent delivered <=1x per replica at any point, lost at most at one replica; 2 final sync rounds; times symbolic (j < l < j2 < 2^62)
 //vf:stub codec -> identity on tokens
 //vf:outside more than two replicas; duplicate delivery to the same replica (covered as a step by VfC02_StepIntent); memberlist notifications out of causal order
-//vf:nonative
 func VfC02_Sync2() {
 	a, b := vfNewSerf("a", 1), vfNewSerf("b", 1)
 	j, l, j2 := vfU64("j"), vfU64("l"), vfU64("j2")
